@@ -34,6 +34,8 @@ def run_case(spec):
     # one details dict object per distinct set of attachments, handed to several outcome calls (in half of the
     # histories: chosen from the spec itself so that no extra draw is needed)
     shared_details = {} if len(spec["ops"]) % 2 else None
+    if len(spec["ops"]) % 4 == 3:
+        shared_details = {"<refill>": {}}
     ext = Ext()
     rec = streams.Recorder()
     r = testtools.ExtendedToStreamDecorator(testtools.CopyStreamResult([rec, testtools.StreamToExtendedDecorator(ext)]))
